@@ -735,10 +735,129 @@ impl SubCheckT for SemanticSddCache {
     }
 }
 
+// ---------------------------------------------------------------------------
+// SDD apply cache with tens of thousands of entries
+// ---------------------------------------------------------------------------
+
+#[derive(Clone, Debug, Serialize, Deserialize)]
+pub struct BigCacheCase {
+    pub nv: u8,
+    pub seed: u64,
+    /// and / or applications issued before the compared ones
+    pub warm: u16,
+    /// even: right-linear, odd: balanced vtree (left-linear vtrees are left out: with deeply nested primes the library's
+    /// structural comparison of SDD pointers is exponential, a single case ran for minutes; time is never a verdict)
+    pub vt_kind: u8,
+}
+
+pub struct SddBigCache;
+
+pub fn run_big_cache(case: &BigCacheCase, st: &mut Stats) -> CaseResult {
+    use rsdd::builder::sdd::{CompressionSddBuilder, SddBuilder};
+    use rsdd::builder::BottomUpBuilder;
+    use rsdd::repr::{DDNNFPtr, VTree, VarLabel};
+    let n = (case.nv as usize).clamp(8, 11);
+    fn shape(labels: &[usize], kind: u8) -> VTree {
+        if labels.len() == 1 {
+            return VTree::new_leaf(VarLabel::new_usize(labels[0]));
+        }
+        let at = if kind % 2 == 0 { 1 } else { labels.len() / 2 };
+        VTree::new_node(Box::new(shape(&labels[..at], kind)), Box::new(shape(&labels[at..], kind)))
+    }
+    let labels = crate::big::permutation(case.seed ^ 0x7EE, n);
+    let warm_b = CompressionSddBuilder::new(shape(&labels, case.vt_kind));
+    let mut pool: Vec<SddPtr> = (0..n).flat_map(|v| [warm_b.var(VarLabel::new_usize(v), true), warm_b.var(VarLabel::new_usize(v), false)]).collect();
+    let pick = |k: u64, len: usize| -> usize {
+        let r = splitmix(case.seed ^ k);
+        // two picks in three among the latest 48 entries
+        if r % 3 != 0 && len > 48 {
+            len - 1 - (r >> 8) as usize % 48
+        } else {
+            (r >> 8) as usize % len
+        }
+    };
+    let mut applications = 0u64;
+    for i in 0..case.warm as u64 {
+        let (a, b2) = (pool[pick(i * 4, pool.len())], pool[pick(i * 4 + 1, pool.len())]);
+        let r = match splitmix(case.seed ^ (i * 4 + 2)) % 5 {
+            0 | 1 => warm_b.and(a, b2),
+            2 | 3 => warm_b.or(a, b2),
+            _ => warm_b.and(a.neg(), b2),
+        };
+        applications += 1;
+        if !r.is_const() {
+            pool.push(r);
+        }
+    }
+    let total = 1usize << n;
+    let table = |p: SddPtr| -> Vec<bool> { (0..total).map(|a| crate::big::sdd_eval(p, &(0..n).map(|i| (a >> i) & 1 == 1).collect::<Vec<_>>())).collect() };
+    // the same function in a builder that has computed nothing else: Shannon expansion of the table
+    fn rebuild<'a>(cb: &'a CompressionSddBuilder<'a>, t: &[bool], n: usize) -> SddPtr<'a> {
+        let mut layer: Vec<SddPtr<'a>> = t.iter().map(|x| if *x { cb.true_ptr() } else { cb.false_ptr() }).collect();
+        for v in (0..n).rev() {
+            let half = 1usize << v;
+            let x = cb.var(VarLabel::new_usize(v), true);
+            layer = (0..half).map(|a| cb.ite(x, layer[a | half], layer[a])).collect();
+        }
+        layer[0]
+    }
+    let mut compared = 0u64;
+    for t in 0..16u64 {
+        let a = pool[pick(0xA000 + t * 3, pool.len())];
+        let x = pool[pick(0xA001 + t * 3, pool.len())];
+        // b implies a; or(a, b) first, then and(a, b), which no earlier call has asked for
+        let b2 = if t % 2 == 0 { warm_b.and(a, x) } else { x };
+        let w_or = warm_b.or(a, b2);
+        let w_and = warm_b.and(a, b2);
+        let w_and_neg = warm_b.and(a.neg(), b2);
+        let (ta, tb) = (table(a), table(b2));
+        let cold_b = CompressionSddBuilder::new(shape(&labels, case.vt_kind));
+        let (ca, cb2) = (rebuild(&cold_b, &ta, n), rebuild(&cold_b, &tb, n));
+        for (what, warm_r, cold_r) in [("or(a, b)", w_or, cold_b.or(ca, cb2)), ("and(a, b)", w_and, cold_b.and(ca, cb2)), ("and(!a, b)", w_and_neg, cold_b.and(ca.neg(), cb2))] {
+            let (tw, tc) = (table(warm_r), table(cold_r));
+            ensure!(
+                tw == tc,
+                "C16/sdd-cache-changes-a-result:large-cache",
+                "{} after {} and / or applications on one builder ({} variables) denotes another function than the same operation on the same two functions in a builder that has computed nothing else (they differ on {} of {} assignments; b {} a)",
+                what,
+                applications,
+                n,
+                (0..total).filter(|i| tw[*i] != tc[*i]).count(),
+                total,
+                if t % 2 == 0 { "implies" } else { "is unrelated to" }
+            );
+            compared += 1;
+        }
+        applications += 4;
+    }
+    st.add("bigcache.operations_compared_with_a_cold_builder", compared);
+    st.add("bigcache.warm_applications", case.warm as u64);
+    st.flag("bigcache.pool_above_1000_diagrams", pool.len() > 1000);
+    if pool.len() > 200 {
+        st.mark_nontrivial();
+    }
+    Ok(())
+}
+
+impl SubCheckT for SddBigCache {
+    type Case = BigCacheCase;
+    const NAME: &'static str = "sdd_large_apply_cache";
+    const RULE: &'static str = "one compressing SDD builder over 8..11 variables (right-linear or balanced vtree over a random leaf order) issues 4 000..12 000 and / or applications on a growing pool (tens of thousands of apply-cache entries), then 16 times or(a, b), and(a, b) and and(!a, b) for pool entries a, b (b = a & x in half of them, so that one operand implies the other): each result denotes, on all 2^n assignments read by the harness's walk, the same function as the same operation in a fresh builder in which only a and b were rebuilt from their truth tables. Non-trivial: a pool of more than 200 diagrams";
+    fn cases(tier: Tier) -> u32 {
+        tier.pick(24, 480)
+    }
+    fn strategy(_tier: Tier) -> BoxedStrategy<BigCacheCase> {
+        (8u8..=11, any::<u64>(), 4000u16..=12000, 0u8..2).prop_map(|(nv, seed, warm, vt_kind)| BigCacheCase { nv, seed, warm, vt_kind }).boxed()
+    }
+    fn run(case: &BigCacheCase, st: &mut Stats) -> CaseResult {
+        run_big_cache(case, st)
+    }
+}
+
 pub fn property() -> Property {
     Property {
         id: "C16",
-        subs: vec![sub::<LruDirect>(), sub::<LruLarge>(), sub::<BddDiff>(), sub::<SddCaches>(), sub::<SemanticSddCache>()],
+        subs: vec![sub::<LruDirect>(), sub::<LruLarge>(), sub::<BddDiff>(), sub::<SddCaches>(), sub::<SemanticSddCache>(), sub::<SddBigCache>()],
         fuzz: vec![FuzzSpec { target: "tables", runs: 150000, max_len: 500 }],
         assumptions: vec![
             "per-key hashes are functions of the key (as every caller computes them)",
